@@ -30,6 +30,14 @@ pub struct Q {
     pub s: usize,
     pub t: usize,
     pub k: usize,
+    /// second start (Dfs resumed after `unvisit`)
+    pub s2: usize,
+    /// distinct abstract nodes re-opened with `VisitMap::unvisit` (some never reached)
+    pub u: Vec<usize>,
+    /// `EdgeFiltered` drops the edges of this weight
+    pub wf: i64,
+    /// `NodeFiltered` drops this abstract node
+    pub x: usize,
 }
 
 
@@ -51,13 +59,111 @@ where
     ctx.line(&format!("view enc={} {} er={} nbrs={}", enc, body, er, nb), "ok");
 }
 
+
+// ---- wave 6: iterator laws for the iterators of the anchored files ----------------------------------------
+/// the laws of `crate::iterlaws::iter_laws` for an iterator that is not `Clone`: `mk` re-creates it (the
+/// algorithms are deterministic for a fixed graph value)
+fn laws_by<I: Iterator>(mk: impl Fn() -> I) -> Option<String>
+where
+    I::Item: PartialEq + std::fmt::Debug,
+{
+    let v: Vec<I::Item> = mk().collect();
+    let n = v.len();
+    let again: Vec<I::Item> = mk().collect();
+    if again != v { return Some(format!("two runs yield different sequences: {:?} vs {:?}", v, again)); }
+    let mut a = mk();
+    for i in 0..=n {
+        let (lo, hi) = a.size_hint();
+        let rem = n - i;
+        if lo > rem { return Some(format!("after {} items size_hint lower bound is {} but {} items remain", i, lo, rem)); }
+        if let Some(h) = hi { if h < rem { return Some(format!("after {} items size_hint upper bound is {} but {} items remain", i, h, rem)); } }
+        if i < n { a.next(); }
+    }
+    if a.next().is_some() { return Some("yields an item after the collected sequence ended".into()); }
+    let c = mk().count();
+    if c != n { return Some(format!("count() = {} but {} items are yielded", c, n)); }
+    if mk().last().as_ref() != v.last() { return Some("last() is not the last item yielded".into()); }
+    let mut ks = vec![0, 1, 2, n / 2, n.saturating_sub(1), n, n + 1];
+    ks.sort();
+    ks.dedup();
+    for k in ks {
+        let mut a = mk();
+        let got = a.nth(k);
+        if got.as_ref() != v.get(k) { return Some(format!("nth({}) = {:?}, the collected sequence has {:?}", k, got, v.get(k))); }
+        let rest: Vec<I::Item> = a.collect();
+        let want: &[I::Item] = if k + 1 <= n { &v[k + 1..] } else { &[] };
+        if rest.as_slice() != want { return Some(format!("after nth({}) the remaining items are {:?}, expected {:?}", k, rest, want)); }
+    }
+    let f = mk().fold(0usize, |acc, _| acc + 1);
+    if f != n { return Some(format!("fold visits {} items, {} are yielded", f, n)); }
+    None
+}
+
+fn law_line(ctx: &mut Ctx, name: &str, enc: &str, r: Option<Option<String>>) {
+    let v = match r { Some(v) => crate::iterlaws::law_verdict(v), None => "VIOLATED an iterator method panicked".to_string() };
+    ctx.line(&format!("law iter {} enc={}", name, enc), &v);
+}
+
 // ---- walkers ------------------------------------------------------------------------------------
 fn w_sets<G>(ctx: &mut Ctx, enc: &str, g: G, q: &Q, abs: Abs<G::NodeId>, conc: Conc<G::NodeId>)
 where
     G: IntoNeighbors + Visitable + Copy,
     G::NodeId: PartialEq + Copy + Eq + Hash + std::fmt::Debug,
-    G::Map: Default,
+    G::Map: Default + Clone + std::fmt::Debug,
 {
+    // wave 6: std traits of the walkers: `clone_from` == `clone` for an arbitrary prior value (a walker that has
+    // walked from another start / a default one), `Default` is the empty walker, `Debug` never panics
+    let r = catch(|| -> Option<String> {
+        macro_rules! walker_laws { ($W:ident, $name:expr) => {{
+            let mut a = $W::new(g, conc(q.s));
+            a.next(g);
+            let rest_of = |mut w: $W<G::NodeId, G::Map>| { let mut v = vec![]; while let Some(x) = w.next(g) { v.push(abs(x)); } v };
+            let want = rest_of(a.clone());
+            let mut b = $W::new(g, conc(q.t));
+            while let Some(_) = b.next(g) {}
+            b.clone_from(&a);
+            if rest_of(b) != want { return Some(format!("{}: clone_from over a used walker continues differently from clone", $name)); }
+            let mut c: $W<G::NodeId, G::Map> = Default::default();
+            if c.next(g).is_some() { return Some(format!("{}: the Default walker emits a node", $name)); }
+            c.clone_from(&a);
+            if rest_of(c) != want { return Some(format!("{}: clone_from over a Default walker continues differently from clone", $name)); }
+        }}; }
+        { let mut a = Dfs::new(g, conc(q.s)); a.next(g); let _ = format!("{:?} {:#?}", a, a); }
+        { let mut a = DfsPostOrder::new(g, conc(q.s)); a.next(g); let _ = format!("{:?} {:#?}", a, a); }
+        walker_laws!(Dfs, "Dfs");
+        walker_laws!(Bfs, "Bfs");
+        walker_laws!(DfsPostOrder, "DfsPostOrder");
+        let sp: algo::DfsSpace<G::NodeId, G::Map> = Default::default();
+        let mut sp2 = algo::DfsSpace::new(g);
+        let _ = algo::has_path_connecting(g, conc(q.s), conc(q.t), Some(&mut sp2));
+        let mut sp3 = sp.clone();
+        sp3.clone_from(&sp2);
+        let _ = format!("{:?} {:?}", sp, sp3);
+        if algo::has_path_connecting(g, conc(q.s), conc(q.t), Some(&mut sp3)) != algo::has_path_connecting(g, conc(q.s), conc(q.t), None) {
+            return Some("has_path_connecting with a clone_from'd used DfsSpace differs from a fresh one".into());
+        }
+        let d = algo::dominators::simple_fast(g, conc(q.s));
+        let mut d2 = algo::dominators::simple_fast(g, conc(q.t));
+        d2.clone_from(&d);
+        if format!("{:?}", d2.root()) != format!("{:?}", d.root()) || d2.immediate_dominator(conc(q.t)) != d.immediate_dominator(conc(q.t)) { return Some("Dominators::clone_from differs from clone".into()); }
+        let _ = format!("{:?} {:#?}", d, d);
+        None
+    });
+    let v = match r { Some(v) => crate::iterlaws::law_verdict(v), None => "VIOLATED a std-trait method of a walker / workspace panicked".to_string() };
+    ctx.line(&format!("law std-traits enc={}", enc), &v);
+    // wave 6: `WalkerIter` (Walker::iter) of the three walkers, fresh and mid-walk
+    law_line(ctx, "WalkerIter<Dfs>", enc, catch(|| {
+        crate::iterlaws::iter_laws(Dfs::new(g, conc(q.s)).iter(g)).or_else(|| { let mut w = Dfs::new(g, conc(q.s)); w.next(g); crate::iterlaws::iter_laws(w.iter(g)) })
+    }));
+    law_line(ctx, "WalkerIter<Bfs>", enc, catch(|| {
+        crate::iterlaws::iter_laws(Bfs::new(g, conc(q.s)).iter(g)).or_else(|| { let mut w = Bfs::new(g, conc(q.s)); w.next(g); crate::iterlaws::iter_laws(w.iter(g)) })
+    }));
+    law_line(ctx, "WalkerIter<DfsPostOrder>", enc, catch(|| {
+        crate::iterlaws::iter_laws(DfsPostOrder::new(g, conc(q.s)).iter(g)).or_else(|| { let mut w = DfsPostOrder::new(g, conc(q.s)); w.next(g); crate::iterlaws::iter_laws(w.iter(g)) })
+    }));
+    // the walker read through `Walker::iter` emits what `next` emits
+    let r = catch(|| list(sorted(Dfs::new(g, conc(q.s)).iter(g).map(|x| abs(x)).collect())));
+    ctx.line(&format!("run dfs_set {} enc={}", q.s, format!("{}/walker-iter", enc)), &ans(r));
     let r = catch(|| { let mut d = Dfs::new(g, conc(q.s)); let mut v = vec![]; while let Some(x) = d.next(g) { v.push(abs(x)); } list(sorted(v)) });
     ctx.line(&format!("run dfs_set {} enc={}", q.s, enc), &ans(r));
     let r = catch(|| { let mut d = Bfs::new(g, conc(q.s)); let mut v = vec![]; while let Some(x) = d.next(g) { v.push(abs(x)); } list(sorted(v)) });
@@ -86,14 +192,47 @@ where
         list(v.iter().map(|(a, b)| format!("{}:{}", a, b)))
     });
     ctx.line(&format!("run dominators {} enc={}", q.s, enc), &ans(r));
+    // wave 6: DominatorsIter (dominators / strict_dominators) and DominatedByIter, for every reached node and for q.t
+    law_line(ctx, "Dominators", enc, catch(|| {
+        let d = algo::dominators::simple_fast(g, conc(q.s));
+        let mut seen = vec![conc(q.t)];
+        let mut dfs = Dfs::new(g, conc(q.s));
+        while let Some(x) = dfs.next(g) { seen.push(x); }
+        for x in seen {
+            if let Some(it) = d.dominators(x) {
+                if let Some(w) = crate::iterlaws::iter_laws(it.clone()) { return Some(format!("dominators({}): {}", abs(x), w)); }
+                // dominators = the node, then its strict dominators
+                let all: Vec<G::NodeId> = it.collect();
+                let strict: Vec<G::NodeId> = d.strict_dominators(x).map(|i| i.collect()).unwrap_or_default();
+                if all.first() != Some(&x) || all[1..] != strict[..] { return Some(format!("dominators({}) is not the node followed by strict_dominators", abs(x))); }
+            } else if d.strict_dominators(x).is_some() { return Some(format!("strict_dominators({}) answers but dominators does not", abs(x))); }
+            if let Some(it) = d.strict_dominators(x) {
+                if let Some(w) = crate::iterlaws::iter_laws(it) { return Some(format!("strict_dominators({}): {}", abs(x), w)); }
+            }
+            if let Some(w) = crate::iterlaws::iter_laws(d.immediately_dominated_by(x)) { return Some(format!("immediately_dominated_by({}): {}", abs(x), w)); }
+            let mut it = d.immediately_dominated_by(x);
+            it.next();
+            if let Some(w) = crate::iterlaws::iter_laws(it) { return Some(format!("immediately_dominated_by({}) after one step: {}", abs(x), w)); }
+            // each listed node has x as its immediate dominator
+            if d.immediately_dominated_by(x).any(|y| d.immediate_dominator(y) != Some(x)) { return Some(format!("immediately_dominated_by({}) lists a node whose immediate_dominator is another node", abs(x))); }
+        }
+        None
+    }));
 }
 
 fn w_directed<G>(ctx: &mut Ctx, enc: &str, g: G, q: &Q, abs: Abs<G::NodeId>, conc: Conc<G::NodeId>)
 where
     G: IntoNeighborsDirected + IntoNodeIdentifiers + Visitable + NodeCount + Copy,
-    G::NodeId: PartialEq + Copy + Eq + Hash,
-    G::Map: Default,
+    G::NodeId: PartialEq + Copy + Eq + Hash + std::fmt::Debug,
+    G::Map: Default + Clone,
 {
+    law_line(ctx, "WalkerIter<Topo>", enc, catch(|| {
+        crate::iterlaws::iter_laws(Topo::new(g).iter(g)).or_else(|| { let mut w = Topo::new(g); w.next(g); crate::iterlaws::iter_laws(w.iter(g)) })
+    }));
+    law_line(ctx, "all_simple_paths", enc, catch(|| {
+        laws_by(|| algo::all_simple_paths::<Vec<_>, _, std::collections::hash_map::RandomState>(g, conc(q.s), conc(q.t), 0, Some(q.k + 1)))
+            .or_else(|| laws_by(|| algo::all_simple_paths::<Vec<_>, _, std::collections::hash_map::RandomState>(g, conc(q.s), conc(q.t), 1, None)))
+    }));
     let r = catch(|| { let mut t = Topo::new(g); let mut v = vec![]; while let Some(x) = t.next(g) { v.push(abs(x)); } list(sorted(v)) });
     ctx.line(&format!("run topo_set enc={}", enc), &ans(r));
     let r = catch(|| match algo::toposort(g, None) { Ok(v) => format!("ok {}", v.len()), Err(_) => "cycle".into() });
@@ -273,6 +412,8 @@ where
         format!("nodes {} edges {} weight {}", nodes, edges, total)
     });
     ctx.line(&format!("run mst enc={}", enc), &ans(r));
+    // wave 6: the element stream read in other ways (MinSpanningTree is not `Clone` for every graph type: re-created)
+    law_line(ctx, "MinSpanningTree", enc, catch(|| laws_by(|| algo::min_spanning_tree(g))));
 }
 
 /// algorithms whose documented domain is the undirected graph; on directed storage only
@@ -289,6 +430,16 @@ where
     if directed {
         return;
     }
+    // wave 6: MatchedNodes / MatchedEdges (not `Clone`: re-created from the same matching)
+    law_line(ctx, "Matching::edges/nodes", enc, catch(|| {
+        for m in [algo::maximum_matching(g), algo::greedy_matching(g)] {
+            if let Some(w) = laws_by(|| m.edges().map(|(a, b)| (abs(a), abs(b)))) { return Some(format!("edges(): {}", w)); }
+            if let Some(w) = laws_by(|| m.nodes().map(|a| abs(a))) { return Some(format!("nodes(): {}", w)); }
+            if m.edges().count() != m.len() || m.nodes().count() != 2 * m.len() { return Some(format!("len() = {} but edges() yields {} and nodes() yields {}", m.len(), m.edges().count(), m.nodes().count())); }
+            if m.is_empty() != (m.len() == 0) { return Some("is_empty() disagrees with len()".into()); }
+        }
+        None
+    }));
     let r = catch(|| { let m = algo::greedy_matching(g); let ok = m.edges().all(|(a, b)| m.mate(a) == Some(b) && m.mate(b) == Some(a) && a != b); format!("valid {}", ok) });
     ctx.line(&format!("run greedy_matching enc={}", enc), &ans(r));
     let r = catch(|| list(sorted(algo::articulation_points::articulation_points(g).into_iter().map(|x| abs(x)).collect())));
@@ -347,6 +498,207 @@ where
 {
     let r = catch(|| { let n = algo::greedy_feedback_arc_set(g).count(); format!("ran {}", n <= usize::MAX) });
     ctx.line(&format!("run fas enc={}", enc), &ans(r));
+    law_line(ctx, "greedy_feedback_arc_set", enc, catch(|| laws_by(|| algo::greedy_feedback_arc_set(g).map(|e| (petgraph::graph::GraphIndex::index(&e.source()), petgraph::graph::GraphIndex::index(&e.target()))))));
+}
+
+
+// ---- wave 6: VisitMap laws (unvisit / reset_map) on the visit map of every encoding ------------------
+/// `law visitmap enc=<e>`: the map of `visit_map()` / `reset_map()` behaves as a SET of nodes under
+/// `visit` / `is_visited` / `unvisit`; `run dfs_resume s s2 U`: a `Dfs` run from `s`, the nodes `U` re-opened
+/// through the public `discovered` map, moved to `s2` and run again (answer judged absolutely by the driver).
+fn w_vmap<G>(ctx: &mut Ctx, enc: &str, g: G, q: &Q, abs: Abs<G::NodeId>, conc: Conc<G::NodeId>)
+where
+    G: IntoNeighbors + IntoNodeIdentifiers + Visitable + Copy,
+    G::NodeId: PartialEq + Copy,
+    G::Map: Default,
+{
+    let r = catch(|| -> Option<String> {
+        let nodes: Vec<G::NodeId> = g.node_identifiers().collect();
+        let check = |m: &G::Map, want: &Vec<bool>, at: &str| -> Option<String> {
+            for (i, x) in nodes.iter().enumerate() {
+                if m.is_visited(x) != want[i] {
+                    return Some(format!("{}: is_visited({}) = {}, expected {}", at, abs(*x), m.is_visited(x), want[i]));
+                }
+            }
+            None
+        };
+        for pass in 0..2 {
+            let mut m = if pass == 0 { g.visit_map() } else { let mut m: G::Map = Default::default(); g.reset_map(&mut m); m };
+            let tag = if pass == 0 { "visit_map()" } else { "reset_map(Default)" };
+            let mut want = vec![false; nodes.len()];
+            if let Some(w) = check(&m, &want, &format!("{} fresh", tag)) { return Some(w); }
+            // unvisit on a clear map: answers false, marks nothing
+            for (i, x) in nodes.iter().enumerate() {
+                if m.unvisit(*x) { return Some(format!("{}: unvisit({}) = true on a map where it is not marked", tag, abs(*x))); }
+                if let Some(w) = check(&m, &want, &format!("{} after unvisit({}) of an unmarked node", tag, abs(nodes[i]))) { return Some(w); }
+            }
+            // visit every other node (pass 1: the odd ones)
+            for (i, x) in nodes.iter().enumerate() {
+                if i % 2 == pass {
+                    if !m.visit(*x) { return Some(format!("{}: first visit({}) = false", tag, abs(*x))); }
+                    if m.visit(*x) { return Some(format!("{}: second visit({}) = true", tag, abs(*x))); }
+                    want[i] = true;
+                }
+            }
+            if let Some(w) = check(&m, &want, &format!("{} after visits", tag)) { return Some(w); }
+            // unvisit every node: answers "was marked", leaves it unmarked, touches nothing else
+            for (i, x) in nodes.iter().enumerate() {
+                let r = m.unvisit(*x);
+                if r != want[i] { return Some(format!("{}: unvisit({}) = {}, it was marked: {}", tag, abs(*x), r, want[i])); }
+                want[i] = false;
+                if let Some(w) = check(&m, &want, &format!("{} after unvisit({})", tag, abs(*x))) { return Some(w); }
+                if m.unvisit(*x) { return Some(format!("{}: second unvisit({}) = true", tag, abs(*x))); }
+                if let Some(w) = check(&m, &want, &format!("{} after second unvisit({})", tag, abs(*x))) { return Some(w); }
+            }
+            // visit all, reset_map: everything is clear again and usable
+            for x in &nodes { m.visit(*x); }
+            g.reset_map(&mut m);
+            if let Some(w) = check(&m, &want, &format!("{} after reset_map", tag)) { return Some(w); }
+            for x in &nodes { if !m.visit(*x) { return Some(format!("{}: visit({}) = false after reset_map", tag, abs(*x))); } }
+        }
+        None
+    });
+    let v = match r { Some(v) => crate::iterlaws::law_verdict(v), None => "VIOLATED a VisitMap operation panicked on a node of the graph".to_string() };
+    ctx.line(&format!("law visitmap enc={}", enc), &v);
+    let r = catch(|| {
+        let mut d = Dfs::new(g, conc(q.s));
+        while let Some(_) = d.next(g) {}
+        let unv: Vec<u8> = q.u.iter().map(|&i| d.discovered.unvisit(conc(i)) as u8).collect();
+        let marked: Vec<u8> = q.u.iter().map(|&i| d.discovered.is_visited(&conc(i)) as u8).collect();
+        d.move_to(conc(q.s2));
+        let mut v = vec![];
+        while let Some(x) = d.next(g) { v.push(abs(x)); }
+        format!("unvisit={} marked={} pass2={}", list(unv), list(marked), list(sorted(v)))
+    });
+    ctx.line(&format!("run dfs_resume {} {} {} enc={}", q.s, q.s2, list(q.u.iter()), enc), &ans(r));
+}
+
+// ---- wave 6: adaptor stacks over every base -------------------------------------------------------------
+// Requests `run a_<algo> <stack> <args> enc=<e>`: `<stack>` is a `.`-separated list, outermost first, of
+// `rev` (Reversed), `ef:<w>` (EdgeFiltered dropping the edges of weight w), `nf:<x>` (NodeFiltered dropping the
+// abstract node x).  The driver applies the same operations to the ABSTRACT graph and judges the answer like the
+// one of `<algo>` on that graph (absolutely where an oracle determines it, and across encodings).
+fn rows(mut rows: Vec<(usize, Vec<usize>)>) -> String {
+    rows.sort();
+    if rows.is_empty() { "-".into() } else { rows.iter().map(|(a, r)| format!("{}:{}", a, list(r.iter()))).collect::<Vec<_>>().join(";") }
+}
+
+/// what needs only the forward traits (`IntoEdges`, hence `IntoNeighbors`)
+fn a_fwd<H>(ctx: &mut Ctx, ad: &str, enc: &str, h: H, q: &Q, abs: Abs<H::NodeId>, conc: Conc<H::NodeId>, start_ok: bool, edges_ok: bool, nonneg: bool)
+where
+    H: IntoEdges + IntoNodeIdentifiers + Visitable + NodeIndexable + Copy + Data<EdgeWeight = i64>,
+    H::NodeId: Eq + Hash + Copy,
+{
+    let r = catch(|| rows(h.node_identifiers().map(|a| (abs(a), sorted(h.neighbors(a).map(|b| abs(b)).collect()))).collect()));
+    ctx.line(&format!("run a_adj {} out enc={}/neighbors", ad, enc), &ans(r));
+    if edges_ok {
+        // `edges(a)`: every edge leaves `a` (what dijkstra & co. rely on: they follow `target()`)
+        let r = catch(|| {
+            if h.node_identifiers().any(|a| h.edges(a).any(|e| e.source() != a)) { return "edges(a) yields an edge whose source is not a".to_string(); }
+            rows(h.node_identifiers().map(|a| (abs(a), sorted(h.edges(a).map(|e| abs(e.target())).collect()))).collect())
+        });
+        ctx.line(&format!("run a_adj {} out enc={}/edges", ad, enc), &ans(r));
+    }
+    if start_ok {
+        let r = catch(|| { let mut d = Dfs::new(h, conc(q.s)); let mut v = vec![]; while let Some(x) = d.next(h) { v.push(abs(x)); } list(sorted(v)) });
+        ctx.line(&format!("run a_dfs_set {} {} enc={}", ad, q.s, enc), &ans(r));
+        let r = catch(|| { let mut d = Bfs::new(h, conc(q.s)); let mut v = vec![]; while let Some(x) = d.next(h) { v.push(abs(x)); } list(sorted(v)) });
+        ctx.line(&format!("run a_bfs_set {} {} enc={}", ad, q.s, enc), &ans(r));
+        let r = catch(|| { let mut d = DfsPostOrder::new(h, conc(q.s)); let mut v = vec![]; while let Some(x) = d.next(h) { v.push(abs(x)); } list(sorted(v)) });
+        ctx.line(&format!("run a_post_set {} {} enc={}", ad, q.s, enc), &ans(r));
+        let r = catch(|| algo::has_path_connecting(h, conc(q.s), conc(q.t), None).to_string());
+        ctx.line(&format!("run a_has_path {} {} {} enc={}", ad, q.s, q.t, enc), &ans(r));
+        if edges_ok && nonneg {
+            let r = catch(|| { let m = algo::dijkstra(h, conc(q.s), None, |e| *e.weight()); let mut v: Vec<(usize, i64)> = m.into_iter().map(|(n, d)| (abs(n), d)).collect(); v.sort(); list(v.iter().map(|(a, b)| format!("{}:{}", a, b))) });
+            ctx.line(&format!("run a_dijkstra {} {} enc={}", ad, q.s, enc), &ans(r));
+        }
+    }
+    let r = catch(|| canon_sccs(algo::tarjan_scc(h), abs));
+    ctx.line(&format!("run a_tarjan {} enc={}", ad, enc), &ans(r));
+    let r = catch(|| algo::is_cyclic_directed(h).to_string());
+    ctx.line(&format!("run a_cyclic_directed {} enc={}", ad, enc), &ans(r));
+}
+
+/// what walks edges backwards (`IntoNeighborsDirected`)
+fn a_dir<H>(ctx: &mut Ctx, ad: &str, enc: &str, h: H, abs: Abs<H::NodeId>)
+where
+    H: IntoNeighborsDirected + IntoNodeIdentifiers + Visitable + Copy,
+    H::NodeId: Eq + Hash + Copy,
+{
+    for (name, dir) in [("out", petgraph::Direction::Outgoing), ("in", petgraph::Direction::Incoming)] {
+        let r = catch(|| rows(h.node_identifiers().map(|a| (abs(a), sorted(h.neighbors_directed(a, dir).map(|b| abs(b)).collect()))).collect()));
+        ctx.line(&format!("run a_adj {} {} enc={}", ad, name, enc), &ans(r));
+    }
+    let r = catch(|| { let mut t = Topo::new(h); let mut v = vec![]; while let Some(x) = t.next(h) { v.push(abs(x)); } list(sorted(v)) });
+    ctx.line(&format!("run a_topo_set {} enc={}", ad, enc), &ans(r));
+    let r = catch(|| match algo::toposort(h, None) { Ok(v) => format!("ok {}", v.len()), Err(_) => "cycle".into() });
+    ctx.line(&format!("run a_toposort {} enc={}", ad, enc), &ans(r));
+    let r = catch(|| canon_sccs(algo::kosaraju_scc(h), abs));
+    ctx.line(&format!("run a_kosaraju {} enc={}", ad, enc), &ans(r));
+}
+
+/// every adaptor stack over a base with the directed traits (Graph, StableGraph, MatrixGraph, GraphMap).
+/// `d6`: the base is a DIRECTED MatrixGraph, whose `edges_directed(_, Incoming)` yields `(a, predecessor)` (open
+/// finding D6, owned by C06): the stacks that hand such an edge on and look at its endpoints are not run —
+/// `edges()` of anything over `Reversed(&m)`, `EdgeFiltered` over `Reversed(&m)` / over `NodeFiltered(&m)`.
+/// Every other stack tolerates it today and must keep doing so.
+fn a_suite<G>(ctx: &mut Ctx, enc: &str, g: G, q: &Q, abs: Abs<G::NodeId>, conc: Conc<G::NodeId>, nonneg: bool, d6: bool)
+where
+    G: IntoEdgesDirected + IntoNeighborsDirected + IntoNodeIdentifiers + Visitable + NodeIndexable + Copy + Data<EdgeWeight = i64>,
+    G::NodeId: Eq + Hash + Copy,
+{
+    let wf = q.wf;
+    let x = q.x;
+    let st = q.s != x && q.t != x;
+    let keep_n = |n: G::NodeId| abs(n) != x;
+    let ef = EdgeFiltered::from_fn(g, |e: G::EdgeRef| *e.weight() != wf);
+    let nf = NodeFiltered::from_fn(g, &keep_n);
+    let (sef, snf) = (format!("ef:{}", wf), format!("nf:{}", x));
+    a_fwd(ctx, &sef, enc, &ef, q, abs, conc, true, true, nonneg);
+    a_dir(ctx, &sef, enc, &ef, abs);
+    a_fwd(ctx, &snf, enc, &nf, q, abs, conc, st, true, nonneg);
+    a_dir(ctx, &snf, enc, &nf, abs);
+    a_fwd(ctx, "rev", enc, Reversed(g), q, abs, conc, true, !d6, nonneg);
+    a_dir(ctx, "rev", enc, Reversed(g), abs);
+    a_fwd(ctx, &format!("rev.{}", sef), enc, Reversed(&ef), q, abs, conc, true, !d6, nonneg);
+    a_dir(ctx, &format!("rev.{}", sef), enc, Reversed(&ef), abs);
+    a_fwd(ctx, &format!("rev.{}", snf), enc, Reversed(&nf), q, abs, conc, st, !d6, nonneg);
+    a_dir(ctx, &format!("rev.{}", snf), enc, Reversed(&nf), abs);
+    let nf_rev = NodeFiltered::from_fn(Reversed(g), &keep_n);
+    a_fwd(ctx, &format!("{}.rev", snf), enc, &nf_rev, q, abs, conc, st, !d6, nonneg);
+    a_dir(ctx, &format!("{}.rev", snf), enc, &nf_rev, abs);
+    let nf_ef = NodeFiltered::from_fn(&ef, &keep_n);
+    a_fwd(ctx, &format!("{}.{}", snf, sef), enc, &nf_ef, q, abs, conc, st, true, nonneg);
+    a_dir(ctx, &format!("{}.{}", snf, sef), enc, &nf_ef, abs);
+    if !d6 {
+        let ef_rev = EdgeFiltered::from_fn(Reversed(g), |e| *e.weight() != wf);
+        a_fwd(ctx, &format!("{}.rev", sef), enc, &ef_rev, q, abs, conc, true, true, nonneg);
+        a_dir(ctx, &format!("{}.rev", sef), enc, &ef_rev, abs);
+        let ef_nf = EdgeFiltered::from_fn(&nf, |e| *e.weight() != wf);
+        a_fwd(ctx, &format!("{}.{}", sef, snf), enc, &ef_nf, q, abs, conc, st, true, nonneg);
+        a_dir(ctx, &format!("{}.{}", sef, snf), enc, &ef_nf, abs);
+    }
+}
+
+/// the forward-only bases (Csr, adj::List): `EdgeFiltered`, `NodeFiltered` and their stack
+fn a_suite_fwd<G>(ctx: &mut Ctx, enc: &str, g: G, q: &Q, abs: Abs<G::NodeId>, conc: Conc<G::NodeId>, nonneg: bool)
+where
+    G: IntoEdges + IntoNodeIdentifiers + Visitable + NodeIndexable + Copy + Data<EdgeWeight = i64>,
+    G::NodeId: Eq + Hash + Copy,
+{
+    let wf = q.wf;
+    let x = q.x;
+    let st = q.s != x && q.t != x;
+    let keep_n = |n: G::NodeId| abs(n) != x;
+    let ef = EdgeFiltered::from_fn(g, |e: G::EdgeRef| *e.weight() != wf);
+    let nf = NodeFiltered::from_fn(g, &keep_n);
+    let (sef, snf) = (format!("ef:{}", wf), format!("nf:{}", x));
+    a_fwd(ctx, &sef, enc, &ef, q, abs, conc, true, true, nonneg);
+    a_fwd(ctx, &snf, enc, &nf, q, abs, conc, st, true, nonneg);
+    let nf_ef = NodeFiltered::from_fn(&ef, &keep_n);
+    a_fwd(ctx, &format!("{}.{}", snf, sef), enc, &nf_ef, q, abs, conc, st, true, nonneg);
+    let ef_nf = EdgeFiltered::from_fn(&nf, |e| *e.weight() != wf);
+    a_fwd(ctx, &format!("{}.{}", sef, snf), enc, &ef_nf, q, abs, conc, st, true, nonneg);
 }
 
 // ---- per-type suites -------------------------------------------------------------------------------
@@ -367,6 +719,8 @@ fn suite<Ty: EdgeType>(ctx: &mut Ctx, rng: &mut Rng, ag: &AG, q: &Q, nonneg: boo
             let conc = |a: usize| petgraph::graph::NodeIndex::<u32>::new(inv[a]);
             emit_view(ctx, &enc, view_line(ag, g, &abs, &|er, _| e.eid[EdgeRef::id(&er).index()]), g, &abs, &|er, _| e.eid[EdgeRef::id(&er).index()]);
             w_sets(ctx, &enc, g, q, &abs, &conc);
+            w_vmap(ctx, &enc, g, q, &abs, &conc);
+            if variant == 0 { a_suite(ctx, &enc, g, q, &abs, &conc, nonneg, false); }
             w_directed(ctx, &enc, g, q, &abs, &conc);
             w_tarjan(ctx, &enc, g, &abs);
             w_paths(ctx, &enc, g, q, &abs, &conc, nonneg);
@@ -388,6 +742,8 @@ fn suite<Ty: EdgeType>(ctx: &mut Ctx, rng: &mut Rng, ag: &AG, q: &Q, nonneg: boo
             let conc = |a: usize| cidx[a];
             emit_view(ctx, &enc, view_line(ag, g, &abs, &|er, _| e.eid[EdgeRef::id(&er).index()]), g, &abs, &|er, _| e.eid[EdgeRef::id(&er).index()]);
             w_sets(ctx, &enc, g, q, &abs, &conc);
+            w_vmap(ctx, &enc, g, q, &abs, &conc);
+            if variant == 0 { a_suite(ctx, &enc, g, q, &abs, &conc, nonneg, false); }
             w_directed(ctx, &enc, g, q, &abs, &conc);
             w_tarjan(ctx, &enc, g, &abs);
             w_paths(ctx, &enc, g, q, &abs, &conc, nonneg);
@@ -411,6 +767,8 @@ fn suite<Ty: EdgeType>(ctx: &mut Ctx, rng: &mut Rng, ag: &AG, q: &Q, nonneg: boo
         let conc = |a: usize| petgraph::graph::NodeIndex::<u8>::new(inv[a]);
         emit_view(ctx, "graph-u8", view_line(ag, g, &abs, &|er, _| e.eid[EdgeRef::id(&er).index()]), g, &abs, &|er, _| e.eid[EdgeRef::id(&er).index()]);
         w_sets(ctx, "graph-u8", g, q, &abs, &conc);
+        w_vmap(ctx, "graph-u8", g, q, &abs, &conc);
+        a_suite(ctx, "graph-u8", g, q, &abs, &conc, nonneg, false);
         w_directed(ctx, "graph-u8", g, q, &abs, &conc);
         w_paths(ctx, "graph-u8", g, q, &abs, &conc, nonneg);
         w_floyd(ctx, "graph-u8", g, &abs);
@@ -427,6 +785,8 @@ fn suite<Ty: EdgeType>(ctx: &mut Ctx, rng: &mut Rng, ag: &AG, q: &Q, nonneg: boo
             let conc = |a: usize| a;
             emit_view(ctx, "map", view_line(ag, g, &abs, &|er, used| eid_by_lookup(ag, EdgeRef::source(&er), EdgeRef::target(&er), *EdgeRef::weight(&er), used)), g, &abs, &|er, used| eid_by_lookup(ag, EdgeRef::source(&er), EdgeRef::target(&er), *EdgeRef::weight(&er), used));
             w_sets(ctx, "map", g, q, &abs, &conc);
+            w_vmap(ctx, "map", g, q, &abs, &conc);
+            a_suite(ctx, "map", g, q, &abs, &conc, nonneg, false);
             w_directed(ctx, "map", g, q, &abs, &conc);
             w_tarjan(ctx, "map", g, &abs);
             w_paths(ctx, "map", g, q, &abs, &conc, nonneg);
@@ -444,6 +804,9 @@ fn suite<Ty: EdgeType>(ctx: &mut Ctx, rng: &mut Rng, ag: &AG, q: &Q, nonneg: boo
             let enc = if NodeIndexable::node_bound(&g) != g.node_count() { "matrix+holes" } else { "matrix" };
             emit_view(ctx, enc, view_line_out_only(ag, g, &abs, &|er, used| eid_by_lookup(ag, abs(EdgeRef::source(&er)), abs(EdgeRef::target(&er)), *EdgeRef::weight(&er), used)), g, &abs, &|er, used| eid_by_lookup(ag, abs(EdgeRef::source(&er)), abs(EdgeRef::target(&er)), *EdgeRef::weight(&er), used));
             w_sets(ctx, enc, g, q, &abs, &conc);
+            w_vmap(ctx, enc, g, q, &abs, &conc);
+            // (the directed traits exist for `MatrixGraph<_, _, _, Directed>` only: `matrix_directed` below)
+            a_suite_fwd(ctx, enc, g, q, &abs, &conc, nonneg);
             w_tarjan(ctx, enc, g, &abs);
             w_paths(ctx, enc, g, q, &abs, &conc, nonneg);
             w_edges(ctx, enc, g);
@@ -458,6 +821,8 @@ fn suite<Ty: EdgeType>(ctx: &mut Ctx, rng: &mut Rng, ag: &AG, q: &Q, nonneg: boo
             let conc = |a: usize| inv[a] as u32;
             emit_view(ctx, "csr", view_line_out_only(ag, g, &abs, &|er, used| eid_by_lookup(ag, abs(EdgeRef::source(&er)), abs(EdgeRef::target(&er)), *EdgeRef::weight(&er), used)), g, &abs, &|er, used| eid_by_lookup(ag, abs(EdgeRef::source(&er)), abs(EdgeRef::target(&er)), *EdgeRef::weight(&er), used));
             w_sets(ctx, "csr", g, q, &abs, &conc);
+            w_vmap(ctx, "csr", g, q, &abs, &conc);
+            a_suite_fwd(ctx, "csr", g, q, &abs, &conc, nonneg);
             w_tarjan(ctx, "csr", g, &abs);
             w_paths(ctx, "csr", g, q, &abs, &conc, nonneg);
             w_pagerank(ctx, "csr", g, &abs);
@@ -476,6 +841,8 @@ fn suite<Ty: EdgeType>(ctx: &mut Ctx, rng: &mut Rng, ag: &AG, q: &Q, nonneg: boo
             let conc = |a: usize| inv[a] as u32;
             emit_view(ctx, "list", view_line_out_only(ag, g, &abs, &|er, used| eid_by_lookup(ag, abs(EdgeRef::source(&er)), abs(EdgeRef::target(&er)), *EdgeRef::weight(&er), used)), g, &abs, &|er, used| eid_by_lookup(ag, abs(EdgeRef::source(&er)), abs(EdgeRef::target(&er)), *EdgeRef::weight(&er), used));
             w_sets(ctx, "list", g, q, &abs, &conc);
+            w_vmap(ctx, "list", g, q, &abs, &conc);
+            a_suite_fwd(ctx, "list", g, q, &abs, &conc, nonneg);
             w_tarjan(ctx, "list", g, &abs);
             w_paths(ctx, "list", g, q, &abs, &conc, nonneg);
             w_floyd(ctx, "list", g, &abs);
@@ -483,6 +850,23 @@ fn suite<Ty: EdgeType>(ctx: &mut Ctx, rng: &mut Rng, ag: &AG, q: &Q, nonneg: boo
             w_pagerank(ctx, "list", g, &abs);
         }
     }
+}
+
+/// wave 6: every adaptor stack over a DIRECTED MatrixGraph (with removed ids); `d6 = true` leaves out exactly the
+/// stacks the open finding D6 reaches (see `a_suite`)
+fn matrix_directed(ctx: &mut Ctx, rng: &mut Rng, ag: &AG, q: &Q, nonneg: bool) {
+    if !ag.is_simple() {
+        return;
+    }
+    let node_order = random_perm(rng, ag.n);
+    let edge_order = random_perm(rng, ag.edges.len());
+    let g0 = enc_matrix::<Directed>(rng, ag, &node_order, &edge_order, true);
+    let g = &g0;
+    let cidx: Vec<_> = { let mut v = vec![petgraph::matrix_graph::NodeIndex::new(0); ag.n]; for x in g.node_identifiers() { v[*g.node_weight(x)] = x; } v };
+    let abs = |x: petgraph::matrix_graph::NodeIndex| *g.node_weight(x);
+    let conc = |a: usize| cidx[a];
+    let enc = if NodeIndexable::node_bound(&g) != g.node_count() { "dimatrix+holes" } else { "dimatrix" };
+    a_suite(ctx, enc, g, q, &abs, &conc, nonneg, true);
 }
 
 fn directed_only(ctx: &mut Ctx, rng: &mut Rng, ag: &AG) {
@@ -517,11 +901,20 @@ pub fn run(ctx: &mut Ctx, case: u64) {
     if ag.n == 0 {
         ag.n = 1;
     }
-    let q = Q { s: rng.below(ag.n), t: rng.below(ag.n), k: 1 + rng.below(3) };
+    // wave 6: the nodes re-opened with `unvisit` (distinct; some were never reached), the second start, the
+    // weight `EdgeFiltered` drops (the weight of a random edge in 3 of 4 cases), the node `NodeFiltered` drops
+    let mut u: Vec<usize> = Vec::new();
+    for _ in 0..3 { let c = rng.below(ag.n); if !u.contains(&c) { u.push(c); } }
+    let wf = if !ag.edges.is_empty() && rng.chance(75) { ag.edges[rng.below(ag.edges.len())].2 } else { wlo + rng.below((whi - wlo + 1) as usize) as i64 };
+    // the second start is itself re-opened in half of the cases (otherwise a second pass from a node the first
+    // pass reached emits nothing)
+    let s2 = if !u.is_empty() && rng.chance(50) { u[rng.below(u.len())] } else { rng.below(ag.n) };
+    let q = Q { s: rng.below(ag.n), t: rng.below(ag.n), k: 1 + rng.below(3), s2, u, wf, x: rng.below(ag.n) };
     ctx.line(&abstract_line(&ag), "ok");
     if directed {
         suite::<Directed>(ctx, &mut rng, &ag, &q, nonneg);
         directed_only(ctx, &mut rng, &ag);
+        matrix_directed(ctx, &mut rng, &ag, &q, nonneg);
     } else {
         suite::<Undirected>(ctx, &mut rng, &ag, &q, nonneg);
     }
